@@ -12,6 +12,9 @@ import (
 	"encoding/json"
 	"fmt"
 	"math/rand"
+	"runtime"
+	"runtime/debug"
+	"strings"
 	"sync"
 	"time"
 
@@ -460,5 +463,125 @@ func HammerStage(c *core.Ctx, what string, n, rounds int, nb int) {
 		}
 		rej := c.ValidateTraces(ts, core.ValidateOpts{Module: "Session_Trace", Cfg: traceCfgN(mode, nb, false), ChunkSize: 4000})
 		c.ReportRejections(rej, what+" (concurrent clients, "+mode+" matcher)")
+	}
+}
+
+// RetainStage (C07): sixteen connections publish retained messages of 20-60 KB on channels of their own AT THE SAME TIME
+// (round after round, released together), then the store is read back and one of them subscribes with last=1000:
+// every message stored once, under its channel, with its own payload; replayed exactly.
+func RetainStage(c *core.Ctx, what string) {
+	rng := rand.New(rand.NewSource(c.Seed + 707))
+	runs, rounds := 2, 4
+	if !c.Quick() {
+		runs, rounds = 12, 8
+	}
+	names := []string{"c1", "c2", "c3", "c4", "c5", "c6", "c7", "c8", "c9", "c10", "c11", "c12", "c13", "c14", "c15", "c16"}
+	// more runnable goroutines than processors and frequent collections: the handlers are descheduled in the middle of
+	// storing (as on a busy broker), so whatever the store path shares between publishers is really shared
+	oldProcs := runtime.GOMAXPROCS(4)
+	oldGC := debug.SetGCPercent(5)
+	defer func() { runtime.GOMAXPROCS(oldProcs); debug.SetGCPercent(oldGC) }()
+	for _, mode := range []string{"emitter", "mqtt"} {
+		var ts []*core.Trace
+		for run := 0; run < runs; run++ {
+			storage := []string{"inmemory", "ssd"}[run%2]
+			f, err := newFabric(1, mode, 1+(run+int(c.Seed))%3, storage, false)
+			if err != nil {
+				core.Fatalf("broker: %v", err)
+			}
+			b := f.bs["b1"]
+			w := &world{b: b, f: f, nb: 1, clients: map[string]*bk.Client{}, byID: map[string]string{}, names: names}
+			if w.keys, err = mintKeys(b); err != nil {
+				core.Fatalf("keys: %v", err)
+			}
+			tr := &core.Trace{Label: fmt.Sprintf("retain-concurrent-%s-%d-%s", mode, run, storage)}
+			add := func(ev map[string]any) { tr.Events = append(tr.Events, core.Ev(ev)) }
+			add(map[string]any{"e": "reset", "mode": mode})
+			for _, n := range names {
+				cl := b.Attach()
+				w.clients[n] = cl
+				w.byID[cl.ID] = n
+				cl.Send(&mqtt.Connect{ClientID: []byte(n), UsernameFlag: true, Username: []byte("u-" + n)})
+				out, err := w.collect(n, "")
+				if err != nil {
+					core.Fatalf("connect: %v", err)
+				}
+				add(map[string]any{"e": "connect", "c": n, "u": "u-" + n, "will": map[string]any{"on": false}, "out": out, "tcount": 0})
+			}
+			mid := uint16(100)
+			for r := 0; r < rounds; r++ {
+				start := make(chan struct{})
+				var wg sync.WaitGroup
+				evs := make([]map[string]any, len(names))
+				errs := make([]error, len(names))
+				for i, n := range names {
+					mid++
+					ch := []string{"a", fmt.Sprintf("p%dr%d", i, r)} // a channel of its own for every message
+					p := fmt.Sprintf("%s-r%d-", n, r) + strings.Repeat(string(rune('a'+i)), 40000+rng.Intn(20000))
+					pkt := &mqtt.Publish{Header: mqtt.Header{QOS: 1, Retain: true}, MessageID: mid, Topic: []byte(w.key("kAll") + "/" + w.ch(ch, "ok")), Payload: []byte(p)}
+					evs[i] = map[string]any{"e": "pub", "c": n, "k": "kAll", "w": ch, "syn": "ok", "me0": false, "ttl": -1, "via": "", "retain": true, "qos": 1, "p": abbrev(p), "conc": true}
+					wg.Add(1)
+					go func(i int, n string) {
+						defer wg.Done()
+						<-start
+						w.clients[n].Send(pkt)
+						pk, err := w.clients[n].Barrier(stepTimeout)
+						if err != nil {
+							errs[i] = err
+							return
+						}
+						acks := []map[string]any{}
+						for _, m := range pk {
+							if q := bk.Abstract(m); q.T != "pub" && q.T != "pres" {
+								acks = append(acks, w.toModel(q))
+							}
+						}
+						evs[i]["acks"] = acks
+					}(i, n)
+				}
+				close(start)
+				wg.Wait()
+				for i := range names {
+					if errs[i] != nil {
+						core.Fatalf("concurrent retained publish: %v", errs[i])
+					}
+					add(evs[i])
+				}
+			}
+			// audit: the store, then a subscription that asks for everything
+			if _, err := w.collect("", ""); err != nil {
+				core.Fatalf("drain: %v", err)
+			}
+			mid++
+			w.clients["c1"].Send(&mqtt.Publish{Header: mqtt.Header{QOS: 1, Retain: true}, MessageID: mid, Topic: []byte(w.key("kAll") + "/" + w.ch([]string{"a", "last"}, "ok")), Payload: []byte("last")})
+			out, err := w.collect("c1", "")
+			if err != nil {
+				core.Fatalf("audit publish: %v", err)
+			}
+			// (no read-back of the whole store here: a query reply holds at most 64 KiB)
+			add(map[string]any{"e": "pub", "c": "c1", "k": "kAll", "w": []string{"a", "last"}, "syn": "ok", "me0": false, "ttl": -1, "via": "", "retain": true, "qos": 1, "p": "last", "out": out, "tcount": 0})
+			// (a reply holds at most 64 KiB: the newest message of each publisher's channel is asked for separately)
+			nsub := 0
+			for r := 0; r < rounds; r++ {
+				for i := range names {
+					mid++
+					nsub++
+					subW := []string{"a", fmt.Sprintf("p%dr%d", i, r)}
+					w.clients["c2"].Send(&mqtt.Subscribe{MessageID: mid, Subscriptions: []mqtt.TopicQOSTuple{{Topic: []byte(w.key("kAll") + "/" + w.ch(subW, "ok") + "?last=1")}}})
+					out, err = w.collect("c2", "c2")
+					if err != nil {
+						core.Fatalf("audit subscribe: %v", err)
+					}
+					add(map[string]any{"e": "sub", "c": "c2", "k": "kAll", "w": subW, "syn": "ok", "last": 1, "win": "none", "out": out, "tcount": nsub})
+				}
+			}
+			f.close()
+			c.Add("evaluations", int64(len(tr.Events)-1))
+			c.Add("concurrent_retained_publishes", int64(rounds*len(names)))
+			ts = append(ts, tr)
+		}
+		cfg := strings.Replace(traceCfgN(mode, 1, false), `{"c1","c2","c3"}`, `{"c1","c2","c3","c4","c5","c6","c7","c8","c9","c10","c11","c12","c13","c14","c15","c16"}`, 1)
+		rej := c.ValidateTraces(ts, core.ValidateOpts{Module: "Session_Trace", Cfg: cfg, ChunkSize: 4000})
+		c.ReportRejections(rej, what+" (sixteen concurrent publishers of retained messages, "+mode+" matcher)")
 	}
 }
